@@ -135,6 +135,9 @@ class Context:
         return not self._global_of_type(name, SymbolType.ROUTINE).undefined
 
     def get_macro(self, name) -> Symbol:
+        # A parameter or local variable hides a macro of the same name.
+        if not self._locals.get_symbol(name).undefined:
+            return Symbol()
         return self._global_of_type(name, SymbolType.MACRO)
 
     def _global_of_type(self, name, symbol_type) -> Symbol:
